@@ -162,7 +162,10 @@ USpec == UInit /\ [][UNext]_uvars
 
 NEnv == EvEnv(Env)
 NTy == Ev(ty, Env)
-UProbes == SetToSeq(Probe(NTy, NEnv, 2, 40))
+\* values of the operand of a type operator: what Exclude / Extract / Omit / Pick ... take away must be rejected, so the members of
+\* the first operand are probes of the result (they need not look like members of the result at all)
+OperandProbes == IF ty.t = "util" /\ Len(ty.args) >= 1 THEN Take(Rich(Ev(ty.args[1], Env), NEnv, 2), 12) ELSE {}
+UProbes == SetToSeq(Probe(NTy, NEnv, 2, 40) \cup OperandProbes)
 UCase ==
   LET ps == UProbes IN
   [ fam |-> "util", depth |-> depth, last |-> last, ty |-> ty, env |-> Env, nty |-> NTy, nenv |-> NEnv,
